@@ -215,6 +215,7 @@ def plan(tier, seed):
     for lo in range(0, len(NUMBERS), 12000):
         units.append({'kind': 'numbers', 'lo': lo, 'hi': min(len(NUMBERS), lo + 12000)})
     units.append({'kind': 'names'})
+    units.append({'kind': 'alias'})
     step = 52 if tier == 'thorough' else 52
     for lo in range(0, len(SPACE3), step):
         units.append({'kind': 'pairs', 'lo': lo, 'hi': min(len(SPACE3), lo + step)})
@@ -261,6 +262,61 @@ def unit(arg):
             if any(b not in UNRESERVED for b in v):
                 acc.nontrivial += 1
         acc.sample({'type': t, 'three_byte_values': [arg['lo'], arg['hi']]})
+    elif k == 'alias':
+        # results are mutable (bytearray components, lists): editing one in place must not show in a later or sibling result
+        def scramble(x):
+            if isinstance(x, list):
+                for c in x:
+                    scramble(c)
+                x.append(bytearray(b'\x08\x01!'))
+            elif isinstance(x, bytearray):
+                for i in range(len(x)):
+                    x[i] ^= 0x5a
+                x.extend(b'junk')
+        for toks in all_names(list(MENU), 2):
+            comps, uri, curi, wire, forms = name_forms(toks)
+            for label, fn, arg_ in (('Name.from_str', Name.from_str, uri), ('Name.from_bytes', Name.from_bytes, wire),
+                                    ('Name.normalize(str)', Name.normalize, uri), ('Name.normalize(bytes)', Name.normalize, wire)):
+                try:
+                    first = fn(arg_)
+                    if len(first) == 2 and toks[0] == toks[1] and isinstance(first[0], bytearray):
+                        first[0][-1:] = b'?'
+                        if bytes(first[1]) != comps[1]:
+                            viol.append((f'C09|alias|{label}|siblings', f'name {toks}: editing one component changed its equal sibling'))
+                    scramble(first)
+                    second = fn(arg_)
+                    if [bytes(c) for c in second] != comps:
+                        viol.append((f'C09|alias|{label}|later-result', f'name {toks}: after editing an earlier result in place, {label} returns {[bytes(c).hex()[:12] for c in second]}'))
+                except Exception as e:  # noqa
+                    viol.append((f'C09|alias|{label}|raises:{type(e).__name__}', f'name {toks}: {e!r}'))
+                acc.evaluations += 1
+                acc.nontrivial += 1
+        for tok, (t, v) in MENU.items():
+            exp = ts.tlv(t, v)
+            for label, fn, arg_ in (('Component.from_str', Component.from_str, ref_to_str(t, v)), ('Component.from_bytes', lambda a: Component.from_bytes(a, t), v)):
+                try:
+                    first = fn(arg_)
+                    if isinstance(first, bytearray):
+                        scramble(first)
+                    if bytes(fn(arg_)) != exp:
+                        viol.append((f'C09|alias|{label}|later-result', f'component {tok}: an edited earlier result shows in a later one'))
+                except Exception as e:  # noqa
+                    viol.append((f'C09|alias|{label}|raises:{type(e).__name__}', f'component {tok}: {e!r}'))
+                acc.evaluations += 1
+        for nfn, nlabel in ((Component.from_number, 'from_number'), (Component.from_segment, 'from_segment'), (Component.from_version, 'from_version')):
+            for x in (0, 7, 255, 256, 70000):
+                try:
+                    first = nfn(x, 8) if nlabel == 'from_number' else nfn(x)
+                    want = bytes(first)
+                    if isinstance(first, bytearray):
+                        scramble(first)
+                    again = nfn(x, 8) if nlabel == 'from_number' else nfn(x)
+                    if bytes(again) != want:
+                        viol.append((f'C09|alias|Component.{nlabel}|later-result', f'number {x}: an edited earlier result shows in a later one'))
+                except Exception as e:  # noqa
+                    viol.append((f'C09|alias|Component.{nlabel}|raises:{type(e).__name__}', f'number {x}: {e!r}'))
+                acc.evaluations += 1
+        acc.sample({'alias': 'every result edited in place, then recomputed', 'names': 'length <= 2 over the menu'})
     elif k == 'bytes1':
         for t in (8, 1, 2, 32, 0x32, 253, 65535):
             for x in range(256):
